@@ -84,11 +84,11 @@ box(const std::shared_ptr<ak::Content>& content) {
                    reinterpret_cast<double*>(raw->data())));
         case ak::util::dtype::datetime64:
           return py::module::import("numpy").attr("datetime64")(
-                   reinterpret_cast<uint64_t*>(raw->data()),
+                   reinterpret_cast<int64_t*>(raw->data()),
                    ak::util::format_to_units(raw->format()));
         case ak::util::dtype::timedelta64:
           return py::module::import("numpy").attr("timedelta64")(
-                   reinterpret_cast<uint64_t*>(raw->data()),
+                   reinterpret_cast<int64_t*>(raw->data()),
                    ak::util::format_to_units(raw->format()));
         default:
           if (raw->ptr_lib() == ak::kernel::lib::cuda) {
